@@ -4,7 +4,7 @@ ENTRY = dict(
          "chains, Extra, ALPN, boundary secret lengths) built through ParseSessionState of an independently written encoder and "
          "through MakeClientSessionState+setters (also ill-formed: empty/oversized secret, empty or foreign chains); their "
          "Bytes()/ParseSessionState incl. bit-flipped/truncated encodings; TicketKeyFromBytes on random 32-byte strings; per "
-         "ticket EVERY single-bit flip, EVERY truncation (front and back), k=1..64 bytes prepended/appended/inserted, the ticket twice, two tickets glued, plus rotations that keep / drop the sealing key; families of Configs related by Clone (clone before/after rotations, rotate original and clones, every member seals and cross-opens after every step); every state ever returned is kept and deep-compared again after each later operation and at the end (also: tickets of 60 B..1.5 KiB decrypted interleaved and on 4 goroutines); "
+         "ticket EVERY single-bit flip, EVERY truncation (front and back), k=1..64 bytes prepended/appended/inserted, the ticket twice, two tickets glued, plus rotations that keep / drop the sealing key; families of Configs related by Clone with all three key sources in every order - SetSessionTicketKeys, the user-set SessionTicketKey field, automatic keys with clock advance - (clone before/after rotations, rotate original and clones, every member seals and cross-opens after every step); every state ever returned is kept and deep-compared again after each later operation and at the end (also: tickets of 60 B..1.5 KiB decrypted interleaved and on 4 goroutines); "
          "histories of SetSessionTicketKeys / SessionTicketKey / SessionTicketsDisabled / clock advance / EncryptTicket / "
          "DecryptTicket on one Config with recorded Rand and Time (explicit, legacy and auto-rotated keys); TLS 1.2/1.3 "
          "resumptions from a forged ClientSessionState over loopback TCP. Distinct by (kind, input); non-trivial when the "
